@@ -19,7 +19,7 @@ NOTES = {
  'C05': 'xarray vectorised isel, Dataset.merge and pandas to_xarray are modelled as parameters with stated behaviour; only data variables are compared.',
  'C06': 'GEOS is_valid enters as a truth table (and is compared with an exact ring-validity test); unary_union / equals are GEOS on both sides of the geometry oracle; bounds are compared where every stored bound / node belongs to a kept polygon.',
  'C08': 'Partial: the per-variable netCDF files and open_mfdataset are exercised (results loaded fully), not modelled; the clip mask is taken as given (C07 proves it).',
- 'C09': 'Partial: "can be saved and reopened as such" is runtime behaviour checked by the correspondence only; consistency of the clipped tables is an oracle check, polygon preservation and reference ranges are theorems.',
+ 'C09': 'Partial: "can be saved and reopened as such" is runtime behaviour checked by the correspondence only; polygon preservation, reference ranges and the mutual agreement of the clipped tables are theorems (tables_agree_after_clip, reference_followed), also checked by an oracle on every clipped mesh.',
  'C15': 'Partial: byte formats are the libraries\' business; files are read back with independent readers and compared with the model\'s feature list; shapefile rings are compared up to rotation / direction.',
  'C18': 'Partial: metric lengths (PROJ) and GEOS constructive geometry are outside the model; coverage is proved in path-parameter space and validated with an exact rational clipper on lattice-aligned paths. One known finding (edge-running stretches reported twice).',
  'C19': 'Partial: rendering is matplotlib\'s; only the content of the PolyCollection / Quiver artists is compared.',
